@@ -300,6 +300,8 @@ func count16(r *core.Rand) int {
 		return 16
 	case 2:
 		return 1
+	case 3, 4:
+		return r.Pick(17) // every count 0..16
 	default:
 		return r.Pick(6)
 	}
@@ -712,6 +714,9 @@ func Mutate(r *core.Rand, c Case, other []byte) ([]byte, string) {
 			p := c.Ctrl[r.Pick(len(c.Ctrl))]
 			if p < len(b) {
 				b[p] = boundaryBytes[r.Pick(len(boundaryBytes))]
+				if r.Chance(1, 4) {
+					b[p] = byte(r.Pick(256)) // any value, not only the boundary ones
+				}
 				return b, "ctrl-boundary"
 			}
 		}
